@@ -46,7 +46,9 @@ FromClaims(cl) ==
 
 \* reverse direction: for every duplicated member the registered claim is absent / v and the inner copy absent / v / w
 Dup == [reg : {"none", "v"}, inner : {"none", "v", "w"}]
-BackRows == [kind : {"back"}, issuer_inner : {"none", "v", "w"}, id : Dup, exp : Dup \cup {[reg |-> "out_of_range", inner |-> "none"]},
+\* the issuer is a URL or an object with an id; the copy inside vc has to EQUAL the registered claim, not merely share its id
+BackRows == [kind : {"back"}, iss_form : {"url", "obj"},
+             issuer_inner : {"none", "v", "w", "same_id_other_form", "same_id_other_name"}, id : Dup, exp : Dup \cup {[reg |-> "out_of_range", inner |-> "none"]},
              sub : Dup, issuance : [nbf : {"none", "v", "out_of_range"}, iat : {"none", "v", "w"}, inner : {"none", "v", "w"}]]
 \* issuance value named by the registered claims: nbf wins over iat
 BackIssuance(r) == IF r.issuance.nbf # "none" THEN r.issuance.nbf ELSE r.issuance.iat
